@@ -72,6 +72,7 @@ INFO = {
         'file names and queries use ASCII letters/digits, space, "-", "(" and ")" only',
     ],
 }
+INFO['rule'] += ' Later additions: (12 %) the server connection is lost once while the distributed connections stay; requests delivered without a session are judged for the fan-out only.'
 
 OWN = 'alice'
 PARENT = 'p0'
